@@ -201,6 +201,46 @@ def run_strparse(ctx):
                        "diag": diag, "replay": "StringExpression::new(literal)"}, key="strparse:" + hlit)
 
 
+def run_gens(ctx):
+    """literals written by each generator (dense, readable, token-based without tokens) from token-less trees:
+    numbers re-read by the Coq reference (same oracle as write_number), strings inside index brackets and table keys
+    re-read by darklua's parser and compared with the dense rendering"""
+    n = 30 if ctx.tier == "quick" else 600
+    out = C.harness("dl-c13", ["gens", "--seed", str(ctx.seed), "--n", str(n)])
+    num_cases, seen, str_total, str_bad = [], set(), 0, []
+    for line in out.splitlines():
+        parts = line.split("\t")
+        if parts[0] == "NUM" and len(parts) == 4:
+            text = bytes.fromhex(parts[3]).decode("latin-1").strip()
+            if not text.startswith("return"):
+                continue
+            literal = text[len("return"):].strip()
+            key = (parts[1], parts[2], literal)
+            if key in seen:
+                continue
+            seen.add(key)
+            num_cases.append((len(num_cases), "(%s, %s)" % (parts[1], C.coq_string(literal.encode("latin-1").hex())),
+                              parts[1], parts[2], literal))
+        elif parts[0] == "STR" and len(parts) == 6:
+            str_total += 1
+            if parts[5] != "ok":
+                str_bad.append(parts)
+    bad = C.run_coq_cases(ctx.prop, NUM_PREAMBLE, [(c[0], c[1]) for c in num_cases], chunk=400, tag="gens")
+    ctx.stream("numbers written by each generator from token-less nodes (incl. non-finite values with exponents)",
+               len(num_cases), len(num_cases), [{"number": c[2], "generator": c[3], "written": c[4]} for c in num_cases[:3]],
+               mismatches=len(bad))
+    ctx.stream("strings in index brackets / table keys written by each generator, re-read by darklua's parser",
+               str_total, str_total, [], mismatches=len(str_bad))
+    for cid, diag in bad[:3]:
+        _, _, term, generator, literal = num_cases[cid]
+        ctx.violation("a number written by the %s generator does not read back as the same double" % generator,
+                      {"number": term, "generator": generator, "written": literal, "diag": diag}, key="gen-number:" + term + generator)
+    for _, generator, shape, hval, htext, verdict in str_bad[:3]:
+        ctx.violation("a string written by the %s generator inside %s is not read back as the same tree (%s)" % (generator, shape, verdict),
+                      {"generator": generator, "shape": shape, "value_hex": hval,
+                       "written": bytes.fromhex(htext).decode("latin-1")}, key="gen-string:" + generator + shape + hval)
+
+
 def run_numbers(ctx):
     n = 600 if ctx.tier == "quick" else 20000
     out = C.harness("dl-c13", ["numbers", "--seed", str(ctx.seed), "--n", str(n)])
@@ -254,6 +294,7 @@ def run(ctx):
     proofs_ok = C.proof_gate(ctx, ["Model/NumberLit.vo"])
     run_numbers(ctx)
     run_strparse(ctx)
+    run_gens(ctx)
     segment_mismatch = run_segments(ctx)
 
     n = 1500 if ctx.tier == "quick" else 20000
